@@ -37,7 +37,7 @@ func guardCrash(f func()) (crashed bool) {
 }
 
 func runCrash(c *kernel.Choices, p kernel.Params) *kernel.Result {
-	w := &world{c: c, r: kernel.NewResult(), p: p, prop: "C27", emptyKeys: map[string]bool{}}
+	w := &world{c: c, r: kernel.NewResult(), p: p, prop: "C27", emptyKeys: map[string]bool{}, dynPkgs: map[string]bool{}, knownSeen: map[string]bool{}}
 	maxGas := int64(3_000_000_000)
 	w.img = baseImage(maxGas)
 	w.acts = newActors()
@@ -58,8 +58,9 @@ func runCrash(c *kernel.Choices, p kernel.Params) *kernel.Result {
 		}
 	}
 	w.prevDump = au.dump()
+	w.genesisDump = w.prevDump
 	nblocks := 3 + c.Intn(5)
-	weights := []int{5, 2, 3, 2, 2, 0, 1}
+	weights := []int{5, 2, 3, 2, 2, 0, 1, 1, 1}
 	c.Event("crash-run prune=%q blocks=%d", prune, nblocks)
 
 	// 1. reference history, remembering the durable image before every block
@@ -128,6 +129,19 @@ func runCrash(c *kernel.Choices, p kernel.Params) *kernel.Result {
 	return w.r
 }
 
+func catchPanic(f func()) (msg string) {
+	defer func() {
+		if r := recover(); r != nil {
+			if _, ok := r.(simdb.CrashSentinel); ok {
+				panic(r)
+			}
+			msg = fmt.Sprint(r)
+		}
+	}()
+	f()
+	return ""
+}
+
 func sumU(xs []uint64) (s uint64) {
 	for _, x := range xs {
 		s += x
@@ -190,7 +204,7 @@ func (w *world) crashPoint(hist []recordedBlock, pre []*simdb.Disk, bi int, k, n
 	if bi > 0 {
 		prevHash = hist[bi-1].res.AppHash
 	}
-	var prevDump stateDump
+	prevDump := w.genesisDump
 	if bi > 0 {
 		prevDump = hist[bi-1].dump
 	}
@@ -231,7 +245,11 @@ func (w *world) crashPoint(hist []recordedBlock, pre []*simdb.Disk, bi int, k, n
 	}
 	// continue from it: must reproduce the reference's later hashes
 	for j := at + 1; j < len(hist) && j <= bi+2; j++ {
-		got := m.runBlock(hist[j].spec)
+		var got blockResult
+		if pmsg := catchPanic(func() { got = m.runBlock(hist[j].spec) }); pmsg != "" {
+			w.fail("C27", "continuation-panics", "after recovering from a crash at height %d op %d of %d (power loss=%v) at height %d, executing height %d panics: %s", rb.spec.Height, k, nops, power, m.height, hist[j].spec.Height, clip(pmsg, 400))
+			return
+		}
 		for i := range hist[j].res.Txs {
 			if got.Txs[i].key() != hist[j].res.Txs[i].key() {
 				w.fail("C27", "continuation-diverges", "after recovering from a crash at height %d op %d, height %d tx %d: %s vs reference %s", rb.spec.Height, k, hist[j].spec.Height, i, got.Txs[i].key(), hist[j].res.Txs[i].key())
